@@ -1,3 +1,4 @@
+import Mixin.Facts.ExpectedC26
 import Mixin.Model.Work
 /-!
 # C26 — node work is credited exactly once per snapshot
